@@ -443,4 +443,18 @@ theorem table_entry_is_its_number (es : List FidLife.FEv) (s : FidLife.FS)
     o < s.n ∧ (s.obj o).num = k :=
   (FidLife.inv_run _ _ es FidLife.inv_init h).poolOk k o hp
 
+/-- A fid number that the table holds — for a valid fid or for one a request is still creating —
+    cannot be taken by another request: `FidNew` refuses it, whatever else is going on, and the
+    table, its fid and every other fid stay as they are. -/
+theorem number_in_use_is_refused (s : FidLife.FS) (k o : Nat) (hp : s.pool k = some o) :
+    s.step (.new k) = none := by
+  simp [FidLife.FS.step, hp]
+
+/-- in particular the fid a request is creating keeps its number until that request has ended:
+    in every reachable state a pending fid that is in the table makes `FidNew` of its number fail -/
+theorem fid_being_created_keeps_its_number (es : List FidLife.FEv) (s : FidLife.FS)
+    (_h : FidLife.FS.init.run es = some s) (o : Nat) (_hpend : (s.obj o).pending = true) (hin : s.inpool o) :
+    s.step (.new (s.obj o).num) = none :=
+  number_in_use_is_refused s _ o hin
+
 end G9.C04
